@@ -32,7 +32,7 @@ ASSUMPTIONS = [
     "difference there proves inequality, agreement does not prove equality and is then not used to demand ==)",
 ]
 MIN_MONITORS = {"pair": 20000, "eq-implies-hash": 20000, "eq-implies-same": 3000, "equal-by-construction": 6000,
-                "accessor-mutation": 15000, "pickle": 6000, "bls-pair": 4500, "bls-equal-sets": 1500, "expr-pair": 4000, "unchanged-after-pickling": 350}
+                "accessor-mutation": 15000, "pickle": 6000, "bls-pair": 4500, "bls-equal-sets": 1500, "expr-pair": 4000, "unchanged-after-pickling": 350, "accessor-first-read": 3000}
 THOROUGH_MIN_SCALE = 8
 
 
@@ -227,8 +227,15 @@ def fingerprint(obj, pydsdl):
     return out
 
 
-def accessor_mutation(ctx, obj, pydsdl, case):
-    before = fingerprint(obj, pydsdl)
+def accessor_mutation(ctx, obj, pydsdl, case, twin=None):
+    """
+    twin: an object built in exactly the same way that has not been touched. When given, nothing at all is read from obj
+    before its accessors are mutated, so that the list handed out by the very first read of each accessor is the one
+    under test (an accessor that memoises may hand out its internal list only on that first read).
+    """
+    if twin is not None:
+        ctx.mon("accessor-first-read")
+    before = fingerprint(obj if twin is None else twin, pydsdl)
     for name in list_accessors(type(obj)):
         ctx.mon("accessor-mutation")
         got = getattr(obj, name)
@@ -291,6 +298,21 @@ def type_case(ctx, pydsdl, u, seed, text_first, workdir):
         B = GT.construct_universe(pydsdl, u, random.Random(seed + 2))
         ctx.cls("equal-via-ctor-twice")
     lay = Layout(u)
+    # untouched objects: nothing has been read from F1 when its accessors are mutated; F2 is its identically built twin
+    F1, F2 = GT.construct_universe(pydsdl, u, random.Random(seed + 3)), GT.construct_universe(pydsdl, u, random.Random(seed + 3))
+    for f1, f2 in zip(F1, F2):
+        accessor_mutation(ctx, f1, pydsdl, case, twin=f2)
+        if f1.inner_type is not f1:
+            accessor_mutation(ctx, f1.inner_type, pydsdl, case, twin=f2.inner_type)
+    if text_first:
+        d = workdir / "eq"
+        try:
+            T1 = GT.read_universe(pydsdl, u, d, random.Random(seed))
+            T2 = GT.read_universe(pydsdl, u, d, random.Random(seed))
+        finally:
+            shutil.rmtree(d, ignore_errors=True)
+        for t1, t2 in zip(T1, T2):
+            accessor_mutation(ctx, t1, pydsdl, case, twin=t2)
     # equal by construction
     for i, (a, b) in enumerate(zip(A, B)):
         ctx.mon("equal-by-construction")
@@ -490,6 +512,16 @@ def service_case(ctx, pydsdl, rng, workdir):
     finally:
         shutil.rmtree(d, ignore_errors=True)
     a, b = objs
+    # untouched twins first: same text read twice from the same path
+    try:
+        p = d / "three" / "svcns"
+        p.mkdir(parents=True)
+        (p / "S.1.0.dsdl").write_text(txt)
+        f1, f2 = pydsdl.read_namespace(p, [])[0], pydsdl.read_namespace(p, [])[0]
+    finally:
+        shutil.rmtree(d, ignore_errors=True)
+    accessor_mutation(ctx, f1, pydsdl, case, twin=f2)
+    accessor_mutation(ctx, f1.response_type, pydsdl, case, twin=f2.response_type)
     # source paths differ, names/versions/sections are equal
     if pair_contract(ctx, a, b, "service types", case) is not True:
         ctx.violation("C18/equal-descriptions-unequal", "equal services read from two copies compare unequal", case)
